@@ -71,6 +71,16 @@ Theorem C10_put : forall cd hd fl reqpath data o b,
 Proof. exact put_roundtrip. Qed.
 Print Assumptions C10_put.
 
+(** a history of PUTs at one request path: each is answered as a PUT of its own *)
+Theorem C10_put_history : forall cd hd fl reqpath (steps : list (string * obj)),
+  (forall data o, In (data, o) steps ->
+     exists b, pay_enc cd fl data = Some b /\ pay_dec cd fl b = Some data
+               /\ hdr_loc_ok hd o = true /\ hdr_meta_ok cd hd o = true) ->
+  map (fun s => e2e_put cd hd fl reqpath (fst s) (Found (snd s))) steps
+  = map (fun s => (COk (put_view reqpath (snd s)), Some (fst s))) steps.
+Proof. exact put_history. Qed.
+Print Assumptions C10_put_history.
+
 Theorem C10_put_failure : forall cd hd fl reqpath data c d p b,
   pay_enc cd fl data = Some b -> pay_dec cd fl b = Some data ->
   (Z.quot (fail_code c) 100 =? 2) = false ->
